@@ -16,14 +16,31 @@ def run(ctx):
         "for a record type in {NULL, PRIVATE, TXT, SRV, MX, CNAME, AAAA, A} and a downstream codec from enc.FromCode (8 codecs). "
         "Outcome identical = ok; an error reported by encode/pack/unpack/decode (or a packed message over 65535 bytes, which no DNS "
         "transport carries) = ok, counted under stat:reported_failure:<stage>; decoded without error but different, or a panic anywhere = violation. "
-        "Payload lengths: every length 0..300, 500-520, 1000-1030, 4090-4100, 8180-8192 (65520-65540 for NULL/PRIVATE); contents: keyed, "
+        "Payload lengths: every length 0..800, 1000-1030, 4090-4100, 8180-8192 (65520-65540 for NULL/PRIVATE); contents: keyed, "
         "seeded random, all-0x00, all-0xff, '.', '\\\\', '\"', ' ', control bytes, mixed special bytes, counter, \\DDD look-alikes; "
         "8 tunnel domains of 4..200 characters (with 188 and 200 a host-name record carries 60 encoded characters or fewer) x 3 question-name lengths (up to the 253 character maximum); seq/ack {0,1,255,256,32767,65535}+random; "
-        "user ids 0..1295 (the server's table size). A case is distinct by all of these; it is non-trivial when the pipeline ran to the final comparison "
+        "user ids 0..1295 (the server's table size). "
+        "Queries: the families above answer a question made by hand (no OPT record); the family 'cliq' (one work item per record type x codec) answers "
+        "queries the client's own Serializer.EncodeDnsRequestWithParams formed (a data packet of 0..149 bytes going upstream, packed and unpacked again on the "
+        "server's side), each response once with the OPT record of a negotiated EDNS0 (UseEdns0, 16384 bytes advertised) and once without it: payload lengths "
+        "0..64, one seeded length in every 32-byte block up to 8192, 8180..8192 (65500..65531 for NULL/PRIVATE), all 8 tunnel domains rotating over the lengths, "
+        "so that answers of every size class (one record .. hundreds of records, up to tens of kilobytes on the wire) are formed for both kinds of query; "
+        "plus every response type without a payload x domain x {OPT, no OPT}. "
+        "Histories: a response that was decoded and found identical is kept for the next 3 answers the same client decodes and compared again after each of them "
+        "(what a client received stays what it received: signature ...:changed-after-later-decode, replay = the case plus the answers in 'then'). "
+        "Concurrency: 16 groups (one per shard); a group is one process with 16 clients (goroutines, GOMAXPROCS 4), each with its own Serializer, record type, "
+        "codec and domain and its own seeded stream of 200 answers (data packets of 0..1200 bytes, some up to 8192, the probes, responses without payload; "
+        "hand-made and client-formed queries); all clients unpack and decode their answers at the same time, 4 passes; every second client uses a codec wrapper that "
+        "yields the processor before delegating to the real codec (moves scheduling points only). Same oracle per answer, plus the kept-response comparison; an answer "
+        "that differs in a group is run once more alone: if it differs there too it is reported under its sequential signature, otherwise as "
+        "concurrent-clients:silent-diff:identical-when-alone (replay = the whole group, an interleaving). "
+        "A case is distinct by all of these; it is non-trivial when the pipeline ran to the final comparison "
         "(or panicked); reported failures are counted separately and are not counted as non-trivial.",
         ["responses are restricted to what the server can form: user ids 0..1295, the downstream-codec probe carries util.DownloadCodecCheck, the "
          "fragment-size probe carries the server's own pattern with FragmentSize = length, an error response carries no other field",
          "errors compare by message; nil and empty byte slices are equal",
          "a packed answer larger than 65535 bytes counts as a reported failure (dns.Conn refuses to write it)",
-         "the (layer, cause) part of a signature is a diagnosis computed after the verdict; it never decides"],
+         "the (layer, cause) part of a signature is a diagnosis computed after the verdict; it never decides",
+         "the clients of a group share the process (package-level state of socketace and of the DNS library) and nothing else; which client a "
+         "concurrency defect hits depends on scheduling, so the concurrent-clients signature does not name the cell"],
         extra_cov={"exhaustive": False})
